@@ -468,6 +468,8 @@ func perrClass(e error) string {
 		{"syntax error: invalid decimal literal", "S_InvalidDecimal"},
 		{"syntax error: invalid identifier", "S_InvalidIdentifier"},
 		{"parse error: invalid syntax (unexpected", "PK_NoPrefix"},
+		{"invalid return statement", "PK_InvalidReturn"},
+		{"invalid case expression", "PK_InvalidCase"},
 		{"following statement", "PK_FollowingStatement"},
 		{"assignment is missing a value", "PK_MissingValue"},
 		{"parse error: expected expression", "PK_ExpectedExpr"},
